@@ -854,11 +854,11 @@ func pstC15Policy(g *sim.Tape, tier string) sim.Policy {
 
 // commit-phase fault plan of one transaction of the C15 client
 const (
-	pstTxFailCallback  = iota // the callback returns an error after its mutations (explicit rollback)
-	pstTxFailPreCommit        // the hook-th pre-commit hook is replaced by an error (the earlier ones ran)
-	pstTxFailPreCommit2       // (same, double weight)
-	pstTxFailBeforeDB         // every pre-commit hook ran, the commit fails before it reaches the database
-	pstTxFailCommit           // every pre-commit hook ran, the database COMMIT itself fails
+	pstTxFailCallback   = iota // the callback returns an error after its mutations (explicit rollback)
+	pstTxFailPreCommit         // the hook-th pre-commit hook is replaced by an error (the earlier ones ran)
+	pstTxFailPreCommit2        // (same, double weight)
+	pstTxFailBeforeDB          // every pre-commit hook ran, the commit fails before it reaches the database
+	pstTxFailCommit            // every pre-commit hook ran, the database COMMIT itself fails
 	pstTxFailKinds
 )
 
